@@ -441,8 +441,9 @@ class FaultWorld(World):
                 return r
 
             def __setattr__(self, name, value):
+                prev = self.total_outbufs_len if name == "total_outbufs_len" else None
                 object.__setattr__(self, name, value)
-                if name == "total_outbufs_len" and value > 0 and self._bufs_closed:
+                if name == "total_outbufs_len" and value > prev and self._bufs_closed:
                     note("append_after_close", world.fd_of(self))
                 if name == "total_outbufs_len" and value == 0 and self._in_hclose and tname() in self._in_hclose:
                     object.__setattr__(self, "_bufs_closed", True)
@@ -1125,9 +1126,9 @@ class ListenerWorld(FaultWorld):
                     elif kind == "plan":
                         if step[1] in self.socks:
                             sk = self.socks[step[1]]
-                            sk.send_plan = list(step[2] or [])
+                            sk.send_plan = _plan(step[2])
                             sk.recv_faults = {int(k) + sk.nrecv: v for k, v in dict(step[3] or {}).items()}
-                            sk.soerr_plan = list(step[4] or [])
+                            sk.soerr_plan = _plan(step[4])
                     elif kind == "turn":
                         mark = len(self.sched.events)
                         if self.map:
@@ -1151,6 +1152,9 @@ class ListenerWorld(FaultWorld):
                                 cur = []
                         gi = iter(groups)
                         answers, labels = notes_to_model(notes, "io", lambda: next(gi))
+                        if not any(nk == "selected" for (_, nk, _) in notes) and self.io_error is None:
+                            # poll(): `if [] == r == w == e: time.sleep(timeout); return` -- the model's empty select answer
+                            answers.insert(0, "sel:-/-/-")
                         toks.append("io;-;%s" % (",".join(answers) or "-"))
                         exps.append((labels, {fd: self._chan_state(fd) for fd in self.socks}, ("turn", self.srv_state())))
                         if self.io_error is not None:
@@ -2201,3 +2205,13 @@ def listener_monitor(world, exps):
     if world.io_error is not None:
         problems.append(("loop_died", repr(world.io_error)))
     return problems, setup_fault
+
+
+# A schedule of the scheduler world on which finding F18 kills the I/O loop (found by seeded random search,
+# kept as a regression input): scenario get-expect-pipelined, the third send() answers EPIPE; the I/O thread
+# has built its select lists (fd 7 writable: the worker holds outbuf_lock with output pending) when the worker
+# runs send_continue() -> handle_close() -> socket.close(); select() then refuses the closed descriptor.
+F18_LOOP_DEATH_CASE = {"scenario": "get-expect-pipelined", "send_plans": {"7": [None, None, ["err", errno.EPIPE]]},
+                       "recv_faults": {}}
+F18_LOOP_DEATH_SCHEDULE = [0, 0, 0, 0, 1, 1, 1, 1, 1, 1, 1, 1, 0, 0, 0, 0, 0, 0, 0, 0, 0, 1, 0, 0, 0, 0, 0, 0, 0, 0, 0, 0,
+                           0, 0, 0, 0, 0, 0]
